@@ -10,7 +10,7 @@
 From Coq Require Import List NArith Arith.
 From SWH.lib Require Import Bytes.
 From SWH.model Require Import Merkle.
-From SWH.proofs Require Import MerkleBase MerkleInv MerkleStep MerkleWitness.
+From SWH.proofs Require Import MerkleBase MerkleInv MerkleStep MerkleForce MerkleWitness.
 Import ListNotations.
 Local Open Scope nat_scope.
 
@@ -59,6 +59,125 @@ Theorem C14_reset : forall NH : bytes -> list entry -> bytes,
 Proof. exact reset_then_collect. Qed.
 Print Assumptions C14_reset.
 
+(* Partial resets, arbitrary later collections.  [notcoll s x] = the collected
+   flag of x is false; [quiet s1 h x] = no collect of history h (run from s1) is
+   issued at a node that has x below it at that moment.
+
+   (a) reset_collect n un-collects everything below n. *)
+Theorem C14_reset_uncollects : forall (NH : bytes -> list entry -> bytes) (s : heap) (n x : nat),
+  InvA NH s -> Reach s n x -> notcoll (fst (step NH true false s (OReset n))) x.
+Proof. exact reset_uncollects. Qed.
+Print Assumptions C14_reset_uncollects.
+
+(* (b) Frame: nothing but collect_node sets collected := true - an uncollected
+   node stays uncollected through every guarded operation (mutations, reads,
+   forced updates, entries, resets, collects elsewhere ...) except a collect
+   issued at a node that has it below. *)
+Theorem C14_uncollected_frame : forall (NH : bytes -> list entry -> bytes) (s : heap) (o : op) (x : nat),
+  InvA NH s -> guard NH true false s o -> notcoll s x ->
+  (forall r, o = OCollect r -> ~ Reach s r x) -> notcoll (fst (step NH true false s o)) x.
+Proof. exact uncollected_frame. Qed.
+Print Assumptions C14_uncollected_frame.
+
+(* (c) collect r succeeds and returns EVERY node below r whose collected flag is
+   false (before the set's deduplication); the node then has a report with its
+   from-scratch hash.  This is the fact an early exit of collect() on an
+   already-collected start node breaks. *)
+Theorem C14_collect_reports_uncollected :
+  forall (NH : bytes -> list entry -> bytes) (rp : set_oracle) (s : heap) (r x : nat),
+  InvA NH s -> Reach s r x -> notcoll s x ->
+  exists s' L, step NH true false s (OCollect r) = (s', OutNodes L) /\ In x L /\
+    exists hv, Fresh NH s' x hv /\ In (rp s' L x, hv, x) (reports rp s' (OutNodes L)).
+Proof. exact collect_reports_uncollected. Qed.
+Print Assumptions C14_collect_reports_uncollected.
+
+(* Hence: at any point of any guarded history, after reset_collect(n) - n the
+   root, a strict descendant, a node shared in the DAG - every node x below n
+   is owed to the first later collect that has it below its root: whatever
+   guarded operations h happen in between (none of them a collect with x below
+   its root), if x is below r when collect(r) is issued, x is in the list it
+   returns, and the reports gain (representative, from-scratch hash of x, x). *)
+Theorem C14_reset_partial : forall (NH : bytes -> list entry -> bytes) (rp : set_oracle)
+  (s : heap) (rep : list report) (n : nat),
+  greach NH rp s rep -> guard NH true false s (OReset n) ->
+  forall (h : list op) (x r : nat),
+  let s1 := fst (step NH true false s (OReset n)) in
+  Reach s n x -> guarded NH true false s1 h -> quiet NH true false s1 h x ->
+  let s2 := final NH true false s1 h in
+  Reach s2 r x ->
+  exists s3 L, step NH true false s2 (OCollect r) = (s3, OutNodes L) /\ In x L /\
+    exists hv, Fresh NH s3 x hv /\ In (rp s3 L x, hv, x) (reports rp s3 (OutNodes L)).
+Proof. exact reset_partial. Qed.
+Print Assumptions C14_reset_partial.
+
+(* Non-vacuity of C14_reset_partial: in the diamond, reset at the inner node 2,
+   x = 0 below it, then a read, a collect at a leaf that does not have x below
+   it, a mutation that makes x shared again, then collect(3) from the root:
+   every hypothesis holds and x is returned. *)
+Theorem C14_reset_partial_satisfiable :
+  let s := fst (grun NH0 true false id_oracle [] [] h_diamond0) in
+  let rep := snd (grun NH0 true false id_oracle [] [] h_diamond0) in
+  let s1 := fst (step NH0 true false s (OReset 2)) in
+  let s2 := final NH0 true false s1 h_mid in
+  greach NH0 id_oracle s rep /\ guard NH0 true false s (OReset 2) /\ Reach s 2 0 /\
+  guarded NH0 true false s1 h_mid /\ quiet NH0 true false s1 h_mid 0 /\ Reach s2 3 0 /\
+  exists s3 L, step NH0 true false s2 (OCollect 3) = (s3, OutNodes L) /\ In 0 L.
+Proof. exact reset_partial_satisfiable. Qed.
+Print Assumptions C14_reset_partial_satisfiable.
+
+(* The seeded mutant collect_early (collect returning at once when the node it
+   is called on is already collected) does NOT satisfy (c): a -> b -> c, collect
+   a, reset b, then from a: the real collect returns c (and b), the mutant
+   returns nothing although c is below a and not collected. *)
+Theorem C14_collect_early_refuted :
+  exists NH h n r x,
+    guarded NH true false [] (h ++ [OReset n]) /\
+    let s := final NH true false [] h in
+    let s1 := fst (step NH true false s (OReset n)) in
+    Reach s n x /\ Reach s1 r x /\
+    (forall y, nth_error s1 x = Some y -> collected y = false) /\
+    (exists L, collect NH false (S (length s1)) r s1 = Ok (fst (step NH true false s1 (OCollect r)), L) /\ In x L) /\
+    exists s' L, collect_early NH false (S (length s1)) r s1 = Ok (s', L) /\ ~ In x L.
+Proof. exact collect_early_refuted. Qed.
+Print Assumptions C14_collect_early_refuted.
+
+(* Out-of-band changes made visible by a forced update (see Props/C10.v for
+   OWrite / C10_force_restores).  In a state of the invariant - all nodes
+   possibly collected - write the data of node n, force at a node r that every
+   ancestor-or-self of n is below or above; then collect(r) succeeds and returns
+   EVERY node below r (the written node and the nodes between it and r, whose
+   hashes changed, in particular), and each gets a report carrying its
+   from-scratch hash. *)
+Theorem C14_write_force_collect : forall (NH : bytes -> list entry -> bytes) (rp : set_oracle)
+  (s : heap) (n : nat) (d : bytes) (r : nat),
+  InvA NH s -> n < length s ->
+  (forall a, Reach s a n -> Reach s r a \/ Reach s a r) ->
+  let s1 := fst (step NH true false s (OWrite n d)) in
+  let s2 := fst (step NH true false s1 (OForce r)) in
+  forall x, Reach s r x ->
+  exists s3 L, step NH true false s2 (OCollect r) = (s3, OutNodes L) /\ In x L /\
+    exists hv, Fresh NH s3 x hv /\ In (rp s3 L x, hv, x) (reports rp s3 (OutNodes L)).
+Proof. exact write_force_collect. Qed.
+Print Assumptions C14_write_force_collect.
+
+(* The seeded mutant force_lazy (update_hash(force=True) that invalidates only
+   the node it is called on and recomputes the subtree without invalidating it)
+   does NOT satisfy this: a -> b -> c, collect a, write c, force a, collect a:
+   the code's second collect returns c; the mutant's returns a only, although
+   the hash of c changed (and is the from-scratch hash): never reported. *)
+Theorem C14_force_lazy_refuted :
+  exists NH h n r d,
+    guarded NH true false [] h /\
+    let s := final NH true false [] h in
+    let s1 := fst (step NH true false s (OWrite n d)) in
+    Reach s r n /\
+    (exists L, snd (step NH true false (fst (step NH true false s1 (OForce r))) (OCollect r)) = OutNodes L /\ In n L) /\
+    exists s2 hv s3 L, force_lazy NH false r s1 = Ok (s2, hv) /\
+      collect NH false (S (length s2)) r s2 = Ok (s3, L) /\ ~ In n L /\
+      hash_of s3 n <> hash_of s n /\ fresh_fn NH 10 s3 n = Some (hash_of s3 n).
+Proof. exact force_lazy_refuted. Qed.
+Print Assumptions C14_force_lazy_refuted.
+
 (* Meaning of a report under a legitimate set oracle: the representative was
    in the returned collection, == the node it stands for, with the same hash. *)
 Theorem C14_reports_sound : forall rp : set_oracle, oracle_ok rp ->
@@ -68,9 +187,9 @@ Theorem C14_reports_sound : forall rp : set_oracle, oracle_ok rp ->
 Proof. exact reports_sound. Qed.
 Print Assumptions C14_reports_sound.
 
-(* Non-vacuity: the identity is a legitimate set oracle; the 23-step diamond
-   history (4 collects, 1 reset, mutations in between) is guarded and produces
-   at least 10 reports. *)
+(* Non-vacuity: the identity is a legitimate set oracle; the 29-step diamond
+   history (6 collects, a reset at the root and a PARTIAL reset at an inner
+   node, mutations in between) is guarded and produces at least 10 reports. *)
 Theorem C14_guards_satisfiable :
   oracle_ok id_oracle /\ guarded NH0 true false [] h_diamond /\
   10 <=? length (snd (grun NH0 true false id_oracle [] [] h_diamond)) = true.
